@@ -326,10 +326,10 @@ def blank_provenance(ctx, chk, meths, want, rule='R-BLANK'):
         pv = getattr(v, 'prov', None)
         moved = isinstance(v, (OpaqueV,)) or (isinstance(v, StructV) and pv is None) or (isinstance(pv, tuple) and pv[0] == 'removed')
         if want == 'default_char':
-            good = moved or (isinstance(pv, tuple) and pv[0] == 'literal' and pv[1] == 'screen::Screen::default_char')
+            good = moved or g.is_default_char(eng, e['st'], v)[0]
             desc = 'a moved cell or default_char()'
         else:
-            good = isinstance(pv, tuple) and pv == ('cursor.attr',)
+            good = g.is_cursor_attr(eng, e['st'], v)
             desc = 'a copy of the cursor rendition'
         k = (short(e['func']), 'stored value @%s' % site_ord(prog, e))
         a = agg.setdefault(k, dict(ok=True, why='', span=e['span'], n=0))
